@@ -20,6 +20,7 @@ import (
 
 	"github.com/slackhq/nebula/cert"
 	"github.com/slackhq/nebula/cert_test"
+	"github.com/slackhq/nebula/handshake"
 	"github.com/slackhq/nebula/header"
 	"github.com/slackhq/nebula/zzverif/mc"
 	"github.com/slackhq/nebula/zzverif/vtime"
@@ -68,6 +69,17 @@ import (
 // search then RE-DIALS (hs events are offered again whenever the sender holds neither a tunnel nor a pending handshake for
 // the address). Application packets stored while a handshake was pending are judged on the wire, like tx events, when
 // the reply that completes the handshake lets them leave.
+//
+// The relay as the wrong responder (relay scenarios; event ra#i): the relay R is a real cast member with its own valid
+// certificate, and every relayed handshake datagram passes through its hands. Whenever a relayed FIRST handshake message
+// is in flight to a node that holds a forwarding relay slot for it, the event "ra" lets that node answer the message
+// ITSELF instead of forwarding it: it runs the responder side of the handshake with its own certificate (a
+// handshake.Machine built from its CertState, as beginHandshake does) and sends the reply back inside the relay frame of
+// the slot the initiator opened for the peer (its real SendVia). For the initiator that reply is a reply from a different
+// host than the one it dialed. Replies that arrive inside relay frames are classified like direct ones (right / wrong /
+// self-claiming responder, by the host that PRODUCED the reply, whoever carried it), with the same obligations except the
+// underlay block (a relayed reply has no underlay address of its own). Start state of those scenarios (scripted prefix):
+// R holds a tunnel with P and the relay slot me<->P is established, my first relayed handshake message is in flight to R.
 
 const (
 	c09A     = "10.0.0.2"
@@ -133,7 +145,7 @@ func (s c09Scn) String() string {
 }
 
 type c09Ev struct {
-	K string // scn | hs | dl | dp | dr | tk | tx | cm | pm | cl | rh
+	K string // scn | hs | dl | dp | dr | ra | tk | tx | cm | pm | cl | rh
 	N string
 	I int
 }
@@ -289,6 +301,8 @@ type c09World struct {
 	allTx   bool
 	// redialed: some start was executed again after its tunnel had been torn down (see canDial)
 	redialed bool
+	// forged: handshake replies produced by a node that answered a relayed first message itself (event ra), by reply bytes
+	forged map[string]string
 }
 
 type c09Tx struct {
@@ -436,7 +450,7 @@ func c09Build(tb testing.TB, seed int64, sc c09Scn, stats *c09Stats) *c09World {
 	net := vNewNet(tb, seed, specs...)
 	w := &c09World{tb: tb, sc: sc, net: net, me: net.node("me"), byName: map[string]*vnode{}, own: map[string][]netip.Addr{}, certs: map[string]c09CertInfo{},
 		hsNames: map[*HandshakeHostInfo]string{}, hsSeq: map[string]int{}, blocked: map[*HandshakeHostInfo][]netip.AddrPort{}, started: map[string]bool{}, stats: stats,
-		tuns: map[string][]*HostInfo{}, rhDone: map[string]bool{}}
+		tuns: map[string][]*HostInfo{}, rhDone: map[string]bool{}, forged: map[string]string{}}
 	pk := vGetPKI()
 	for _, sp := range specs {
 		n := net.node(sp.Name)
@@ -1020,6 +1034,100 @@ func c09Overlap(a, b []netip.Addr) bool {
 	return false
 }
 
+// relaySlot: the datagram is a relay frame and the node it is addressed to holds a relay slot of the given type for it
+// (ForwardingType: the node is the relay in the middle; TerminalType: the node is the end the inner packet is meant for).
+// Returns that node, its tunnel with the sender, the slot and the inner packet.
+func (w *c09World) relaySlot(p vpkt, typ int) (n *vnode, hi *HostInfo, relay *Relay, inner []byte) {
+	var h header.H
+	if h.Parse(p.Data) != nil || h.Type != header.Message || h.Subtype != header.MessageRelay {
+		return nil, nil, nil, nil
+	}
+	n = w.nodeAt(p.To)
+	if n == nil {
+		return nil, nil, nil, nil
+	}
+	hi = n.f.hostMap.QueryRelayIndex(h.RemoteIndex)
+	if hi == nil || hi.ConnectionState == nil || hi.ConnectionState.dKey == nil {
+		return nil, nil, nil, nil
+	}
+	relay, ok := hi.relayState.QueryRelayForByIdx(h.RemoteIndex)
+	if !ok || relay.Type != typ || len(p.Data) < 2*header.Len+hi.ConnectionState.dKey.Overhead() {
+		return nil, nil, nil, nil
+	}
+	return n, hi, relay, p.Data[header.Len : len(p.Data)-hi.ConnectionState.dKey.Overhead()]
+}
+
+// canRelayAnswer: pool datagram i is a relayed FIRST handshake message on its way to a node that is to forward it.
+func (w *c09World) canRelayAnswer(i int) bool {
+	if i >= len(w.pool) {
+		return false
+	}
+	hs, relayed, stage, _ := c09Handshake(w.pool[i].pkt.Data)
+	if !hs || !relayed || stage != 1 {
+		return false
+	}
+	n, _, _, _ := w.relaySlot(w.pool[i].pkt, ForwardingType)
+	return n != nil
+}
+
+// relayAnswer (event ra): the relay keeps the relayed first handshake message for itself and answers it with ITS OWN
+// certificate: responder side of the handshake exactly as beginHandshake sets it up (Machine from the node's CertState and
+// CA pool), reply sent back through the node's real SendVia on the slot the frame came in on. The relay installs nothing
+// (what a lying relay does with the keys is its own business); the initiator's side is what is judged.
+func (w *c09World) relayAnswer(i int, where string) bool {
+	if !w.canRelayAnswer(i) {
+		return false
+	}
+	d := w.pool[i]
+	r, hi, relay, inner := w.relaySlot(d.pkt, ForwardingType)
+	w.pool = append(append([]c09Dgram{}, w.pool[:i]...), w.pool[i+1:]...)
+	cs := r.f.pki.getCertState()
+	mach, err := handshake.NewMachine(cs.DefaultVersion(), cs.GetCredential, r.hm.certVerifier(),
+		func() (uint32, error) { return generateIndex(r.f.l) }, false, header.HandshakeIXPSK0)
+	if err != nil {
+		w.tb.Fatalf("c09: ra: responder machine of %s: %v", r.spec.Name, err)
+	}
+	resp, res, err := mach.ProcessPacket(nil, append([]byte(nil), inner...))
+	if err != nil || res == nil || resp == nil {
+		w.tb.Fatalf("c09: ra: %s could not answer the relayed first message: %v", r.spec.Name, err)
+	}
+	w.forged[string(resp)] = r.spec.Name
+	w.stats.inc("relayedFirstMessagesAnsweredByTheRelayItself")
+	w.curTag = "ra:" + r.spec.Name + "<" + d.tag
+	r.f.SendVia(hi, relay, resp, make([]byte, 12), make([]byte, mtu), false, 0)
+	r.settle()
+	w.pump(where)
+	w.curTag = ""
+	return true
+}
+
+// relayedResponder: the datagram is a relay frame whose inner handshake reply is meant for dst itself; which host PRODUCED
+// that reply (it sits in the responder's tunnel as the stored second handshake message, or a relay made it up: forged)?
+func (w *c09World) relayedResponder(p vpkt) *vnode {
+	n, _, _, inner := w.relaySlot(p, TerminalType)
+	if n == nil {
+		return nil
+	}
+	if name, ok := w.forged[string(inner)]; ok {
+		return w.byName[name]
+	}
+	for _, name := range w.sortedNames() {
+		x := w.byName[name]
+		found := false
+		x.f.hostMap.RLock()
+		for _, hi := range x.f.hostMap.Indexes {
+			if bytes.Equal(hi.HandshakePacket[handshakePacketStage2], inner) {
+				found = true
+			}
+		}
+		x.f.hostMap.RUnlock()
+		if found {
+			return x
+		}
+	}
+	return nil
+}
+
 // deliverPool delivers pool datagram i to the node that owns its destination, judging wrong-responder obligations.
 func (w *c09World) deliverPool(i int, dup bool, where string) {
 	d := w.pool[i]
@@ -1036,7 +1144,16 @@ func (w *c09World) deliverPool(i int, dup bool, where string) {
 	var oldHH *HandshakeHostInfo
 	var intended netip.Addr
 	before := w.mainIdx(dst)
-	if hs && !relayed && src != nil {
+	viaRelay := false
+	if hs && relayed {
+		// a reply inside a relay frame: the host that answered is the one that produced the reply, not the one that carried it
+		src = nil
+		if stage == 2 {
+			src = w.relayedResponder(d.pkt)
+			viaRelay = src != nil
+		}
+	}
+	if hs && src != nil {
 		switch stage {
 		case 2:
 			dst.hm.RLock()
@@ -1068,7 +1185,7 @@ func (w *c09World) deliverPool(i int, dup bool, where string) {
 				}
 			}
 		case 1:
-			if c09Overlap(w.own[src.spec.Name], w.own[dst.spec.Name]) {
+			if !relayed && c09Overlap(w.own[src.spec.Name], w.own[dst.spec.Name]) {
 				kind = "selfInit"
 			}
 		}
@@ -1113,6 +1230,9 @@ func (w *c09World) deliverPool(i int, dup bool, where string) {
 	switch kind {
 	case "right":
 		w.stats.right++
+		if viaRelay {
+			w.stats.inc("rightRepliesInsideRelayFrames")
+		}
 	case "selfInit":
 		// whether the presented certificate really lists an own address is judged by the invariant on the installed entry
 		if slices.Equal(before, after) {
@@ -1131,6 +1251,12 @@ func (w *c09World) deliverPool(i int, dup bool, where string) {
 	case "wrong":
 		w.stats.wrong++
 		w.stats.wrongByDisc[w.sc.Disc]++
+		if viaRelay {
+			w.stats.inc("wrongRepliesInsideRelayFrames")
+			if c09Contains(w.own[src.spec.Name], w.nodeAt(d.pkt.From).vpnIP) {
+				w.stats.inc("wrongRepliesInsideRelayFramesFromTheRelayItself")
+			}
+		}
 		for _, ci := range w.certs {
 			// the answering host is not certified for the dialed address, but its certificate shares ANOTHER address with the
 			// certificate of the host that is (a several-address peer whose addresses were split over two hosts)
@@ -1160,6 +1286,14 @@ func (w *c09World) deliverPool(i int, dup bool, where string) {
 		w.stats.freshPending++
 		if newHH.hostinfo.ConnectionState != nil {
 			w.bad("C09: the fresh pending handshake after a wrong responder already carries a ConnectionState", "%s node=%s", where, dn)
+		}
+		if viaRelay {
+			// a relayed reply has no underlay address of its own: nothing new to block, the earlier blocks stay
+			if len(w.blocked[oldHH]) > 0 {
+				w.blocked[newHH] = append([]netip.AddrPort{}, w.blocked[oldHH]...)
+			}
+			w.hsName(dst, newHH)
+			break
 		}
 		bl := newHH.hostinfo.remotes.CopyBlockedRemotes()
 		if !slices.Contains(bl, d.pkt.From) {
@@ -1210,6 +1344,10 @@ func (w *c09World) applyInner(e c09Ev, where string) bool {
 		}
 		w.pool = append(append([]c09Dgram{}, w.pool[:e.I]...), w.pool[e.I+1:]...)
 		return true
+	case "ra":
+		if !w.relayAnswer(e.I, where+" / "+e.String()) {
+			return false
+		}
 	case "tk":
 		vtime.Advance(200 * vtime.Millisecond)
 		n := w.byName[e.N]
@@ -1464,6 +1602,9 @@ const (
 	c09PreCrossing = "hs:me:a hs:p:me dl#0 dl#0 tk:p tk:p"
 	// ... and then completes too: two tunnels on both sides, the later one (P's) primary
 	c09PreBoth = c09PreCrossing + " dl#0 dl#0"
+	// relay topology: me asks R for a relay slot to a, R completes its own handshake with P, the slot is established on all
+	// three nodes and my first handshake message for a has left inside a relay frame, in flight to R
+	c09PreRelayedFirst = "hs:me:a tk:me tk:r dl#0 dl#0 tk:me tk:me tk:me"
 )
 
 func c09Scenarios(thorough bool) []c09Scn {
@@ -1491,6 +1632,9 @@ func c09Scenarios(thorough bool) []c09Scn {
 		// the impostor is certified for ONE of the several-address peer's addresses (a; P is {a,b}): start state = my tunnel to
 		// P, dialed by b, has come and gone; then the search with re-dials
 		{PCert: "AB", Disc: "static", Remote: "QP", QCert: "A", MeV: v2, PV: v2, Maint: "m", Pre: c09PreDialBClosed, QD: 3, TD: 5},
+		// the relay itself as the wrong responder: start state = the relay slot me<->P is up and my first relayed handshake
+		// message is in flight to R, which may forward it (dl) or answer it itself with its own certificate (ra)
+		{PCert: "A", Disc: "relay", Remote: "P", MeV: v2, PV: v2, Pre: c09PreRelayedFirst},
 	}
 	if !thorough {
 		return quick
@@ -1557,6 +1701,11 @@ func c09Scenarios(thorough bool) []c09Scn {
 	add(c09Scn{PCert: "AB", Disc: "static", Remote: "QP", QCert: "B", MeV: v2, PV: v2, Maint: "m", Pre: c09PreDialAClosed})
 	add(c09Scn{PCert: "AB", Disc: "lh", Remote: "QP", QCert: "A", MeV: v2, PV: v2})
 	add(c09Scn{PCert: "AB", Disc: "static", Remote: "QP", QCert: "B", MeV: v2, PV: v2})
+	// the relay as the wrong responder: several-address peer; version-1 certificates on both ends / on either end
+	add(c09Scn{PCert: "AB", Disc: "relay", Remote: "P", MeV: v2, PV: v2, Pre: c09PreRelayedFirst})
+	add(c09Scn{PCert: "A", Disc: "relay", Remote: "P", MeV: v1, PV: v1, Pre: c09PreRelayedFirst})
+	add(c09Scn{PCert: "A", Disc: "relay", Remote: "P", MeV: v1, PV: v2, Pre: c09PreRelayedFirst})
+	add(c09Scn{PCert: "AO", Disc: "relay", Remote: "P", MeV: v2, PV: v1, Pre: c09PreRelayedFirst})
 	return out
 }
 
@@ -1575,6 +1724,11 @@ func (w *c09World) menu(nDl, nDp, nDr int, rh bool) []c09Ev {
 	}
 	for i := 0; i < len(w.pool) && i < nDr; i++ {
 		menu = append(menu, c09Ev{K: "dr", I: i})
+	}
+	for i := 0; i < len(w.pool) && i < nDl; i++ {
+		if w.canRelayAnswer(i) {
+			menu = append(menu, c09Ev{K: "ra", I: i})
+		}
 	}
 	pendAny := func(n *vnode) bool { return n != nil && len(n.pendingAddrs()) > 0 }
 	if pendAny(w.me) {
@@ -1866,6 +2020,8 @@ func TestVerifC09(t *testing.T) {
 		x = map[string]int64{}
 	}
 	c.Set("maintenance_counters", x)
+	c.Set("relayed_first_messages_answered_by_the_relay_itself", x["relayedFirstMessagesAnsweredByTheRelayItself"])
+	c.Set("replies_inside_relay_frames_right_wrong_wrong_from_the_relay", fmt.Sprintf("%d/%d/%d", x["rightRepliesInsideRelayFrames"], x["wrongRepliesInsideRelayFrames"], x["wrongRepliesInsideRelayFramesFromTheRelayItself"]))
 	c.Set("maintenance_explanation", "scenarios with maint=m start from a scripted prefix (two tunnels to a peer whose v1 and v2 certificates list different address sets) and add the events tx (application packet over an existing tunnel), cm (connection-manager tick: test packets, swapPrimary, dead-tunnel deletion, version re-handshake), pm (HostMap.MakePrimary of a non-primary tunnel), cl (close tunnel, the peer's end follows), rh (re-handshake, thorough only), and offer every hs (application packet without a tunnel) again once its tunnel and pending handshake are gone (re-dial); scenarios with qcert certify the impostor for one address of the several-address peer; counters name what the event of that kind did to the per-address tunnel lists (kind after the colon)")
 	c.Set("explanation", "states = distinct canonical network states (structural: peers named by certificate, handshakes by creation order, no index values or key bytes); transitions = histories replayed on real nodes; every delivered datagram is followed by the hostmap invariant on every node; each new state is additionally run to quiescence with the same checks")
 	if nviol == 0 && (workers > 0 || !c.OutOfTime()) {
@@ -1893,6 +2049,9 @@ func TestVerifC09(t *testing.T) {
 		c.Require(x["redialsAfterTeardown"] > 0 && x["redialsOfNonFirstAddressOfRememberedCertificateList"] > 0, "no re-dial of a torn-down tunnel's address / of an address that is not the first of the certificate list the node remembers: %v", x)
 		c.Require(x["wrongRepliesFromHostSharingAnotherAddressWithTheGenuinePeerOnRedial"] > 0, "no re-dial was answered by a host that shares another certificate address with the genuine peer: %v", x)
 		c.Require(x["storedApplicationPacketsJudgedAtCompletion"] > 0, "no stored application packet was judged on the wire when its handshake completed: %v", x)
+		// the relay itself as the wrong responder of a relayed handshake
+		c.Require(x["relayedFirstMessagesAnsweredByTheRelayItself"] > 0 && x["wrongRepliesInsideRelayFramesFromTheRelayItself"] > 0, "no relayed first handshake message was answered by the relay itself / no such reply reached the initiator's pending handshake: %v", x)
+		c.Require(x["rightRepliesInsideRelayFrames"] > 0, "no reply of the genuine peer inside a relay frame was classified: %v", x)
 		if c.Thorough() {
 			c.Require(x["rehandshakesStartedDirectly"] > 0, "no re-handshake event: %v", x)
 		}
@@ -1903,7 +2062,8 @@ func TestVerifC09(t *testing.T) {
 	c.Assume("non-handshake datagrams (relay control, close tunnel, test, recv_error, data) are delivered at once and loss-free; only the oldest few in-flight handshake datagrams are offered for delivery / duplication / drop")
 	c.Assume("HostMap.MakePrimary (pm) is offered for any live tunnel that is not primary for all of its addresses: in the node it is reached through connectionManager.swapPrimary (traffic on a non-primary tunnel) and AddRelay (relay control on a non-primary tunnel); the cm event covers the former through the real decision path, the relay-driven promotion and the per-address cap eviction (6 tunnels to one address) are not driven")
 	c.Assume("an application packet for overlay address X (tx) is judged on the wire: the data datagram it leaves in must carry the remote index of a tunnel whose verified peer certificate lists X (no unsafe routes in these networks)")
-	c.Assume("in the relay topology the tunnel me<->relay is pre-established; a reply relayed by R can only come from the host R holds a verified tunnel with, so a wrong responder shows up on R's own handshake to the address")
+	c.Assume("in the relay topology the tunnel me<->relay is pre-established; a reply FORWARDED by R can only come from the host R holds a verified tunnel with, so an impostor at the peer's underlay address shows up on R's own handshake to the address; R itself is the other possible wrong responder on that path: it may answer a relayed first message with its own certificate instead of forwarding it (event ra; R keeps no state of that exchange, the initiator's side is judged)")
+	c.Assume("a wrong responder whose reply arrives inside a relay frame has no underlay address of its own: the obligations are no tunnel, the old pending entry and index gone, a fresh pending entry; nothing new has to be blocked")
 }
 
 // TestVerifC09Replay: C09_REPLAY="<scenario index>:ev ev ev" with events as printed (hs:me:a dl#0 dp#1 dr#0 tk:me).
